@@ -1585,6 +1585,57 @@ let suite_prune t v =
   v.cls <- "D";
   v.nontrivial <- nn >= 3
 
+(* ============================ suite CA : queue cache (C17 / C07 / C02) ========= *)
+let suite_cache t v =
+  let nops = ni t in
+  let ops = times nops (fun () ->
+    match next t with
+    | "A" -> let n = bytes_of_hex (next t) in let sz = nz t in let tm = nz t in
+             let meta = bytes_of_hex (next t) in let h = bytes_of_hex (next t) in M.CAdd (n, sz, tm, meta, h)
+    | "D" -> M.CDone (bytes_of_hex (next t))
+    | "R" -> M.CReset (bytes_of_hex (next t))
+    | "X" -> M.CRemove (bytes_of_hex (next t))
+    | "P" -> M.CPersist
+    | "S" -> M.CRestart
+    | s -> raise (Malformed ("cache op " ^ s))) in
+  expect t "=";
+  let c = ref M.empty_cache in
+  let restarts = ref 0 and dones = ref 0 in
+  List.iteri (fun k op ->
+    (match op with M.CRestart -> incr restarts | M.CDone _ -> incr dones | _ -> ());
+    let before = !c in
+    c := M.cstep !c op;
+    let n = ni t in
+    let impl = List.sort compare (times n (fun () ->
+      let nm = next t in let sz = next t in let tm = next t in let meta = next t in let h = next t in let d = next t in
+      (nm, sz, tm, meta, h, d))) in
+    let model = List.sort compare (List.map (fun (nm, e) ->
+      (hex_of_bytes nm, string_of_z e.M.ce_size, string_of_z e.M.ce_time, hex_of_bytes e.M.ce_meta, hex_of_bytes e.M.ce_hash,
+       if e.M.ce_done then "1" else "0")) !c.M.c_mem) in
+    if impl <> model then diff v (Printf.sprintf "cache@%d" k);
+    (* oracles on the implementation's own observations *)
+    (match op with
+     | M.CAdd (nm, sz, tm, meta, h) ->
+         let key = hex_of_bytes nm in
+         (match List.find_opt (fun (a, _, _, _, _, _) -> a = key) impl with
+          | Some (_, isz, itm, imeta, ih, idone) ->
+              if isz <> string_of_z sz || itm <> string_of_z tm || ih <> hex_of_bytes h then oracle v "cache_entry_is_not_the_version_added" false;
+              if imeta <> hex_of_bytes meta then oracle v "cache_entry_lost_store_data" false;
+              (* a confirmation does not carry over to another version *)
+              (match M.cget nm before.M.c_mem with
+               | Some e when idone = "1" && M.c_other_version e sz tm h -> oracle v "confirmation_carried_over_to_another_version" false
+               | _ -> ())
+          | None -> oracle v "cache_entry_is_not_the_version_added" false)
+     | M.CRestart ->
+         (* what the restarted sender finds is what was persisted last *)
+         let disk = List.sort compare (List.map (fun (nm, e) ->
+           (hex_of_bytes nm, string_of_z e.M.ce_size, string_of_z e.M.ce_time, hex_of_bytes e.M.ce_meta, hex_of_bytes e.M.ce_hash,
+            if e.M.ce_done then "1" else "0")) before.M.c_disk) in
+         if impl <> disk then oracle v "restart_finds_other_than_persisted" false
+     | _ -> ())) ops;
+  v.cls <- "D";
+  v.nontrivial <- !restarts > 0 || !dones > 0
+
 (* ============================ dispatch ====================================== *)
 let run_line line =
   let t = mk line in
@@ -1605,6 +1656,7 @@ let run_line line =
       | "SR" -> suite_race t v
       | "G" -> suite_tags t v
       | "P" -> suite_prune t v
+      | "CA" -> suite_cache t v
       | "WH" -> suite_wire_http t v
       | "LC" -> suite_log_conc t v
       | s -> raise (Malformed ("unknown suite " ^ s)))
